@@ -129,7 +129,7 @@ PROPS = {
                      'read from the expanded AST), so the serialized form is field-complete; (S02) the two hand-written Serialize impls '
                      'write exactly the field names their Deserialize helper structs read, each from the same-named field; (S10) state '
                      'is plain data, so behaviour is a function of the restored fields. (S03) the constructor siblings new / from_parts / Deserialize recompute the derived fields of Window and SMM by the same expressions, '
-                     'and SMM\'s restore path re-sorts its slice with the same numeric comparator new() uses. (A01d) no panic is reachable from the hand-written Deserialize impls for any decoded content. (A07) conversely Window::deserialize returns Ok for every well-formed (buffer, oldest-index) pair up to the largest window new() builds, and rebuilds size == len, cursor == index.'),
+                     'and SMM\'s restore path re-sorts its slice with the same numeric comparator new() uses. (A01d) no panic is reachable from the hand-written Deserialize impls for any decoded content. (A07) conversely Window::deserialize returns Ok for every well-formed (buffer, oldest-index) pair up to the largest window new() builds and for the empty window, and rebuilds size == len.'),
         not_decided=['that the chosen format round-trips every f64/integer bit-exactly (a property of the format crate)',
                      'S03 compares the recomputed fields as expressions of the window length; the sortedness of SMM.slice is checked only as "a sort call precedes Ok"',
                      'behavioural equality of restored instances is inferred from field-completeness, not observed'],
